@@ -8,14 +8,27 @@ CACHE = os.path.join(ROOT, '.cache')
 
 
 def build():
-    """(re)build the replayer against /repo's current tree; returns path of the binary or raises"""
+    """(re)build the replayer against the current tree of the repository under check (/repo, or $VERIF_REPO for
+    scratch copies); returns path of the binary or raises"""
+    repo = os.environ.get('VERIF_REPO', '/repo')
     env = dict(os.environ)
-    env.update({'CARGO_NET_OFFLINE': 'true', 'CARGO_TARGET_DIR': os.path.join(CACHE, 'replay-target')})
-    p = subprocess.run(['cargo', 'build', '--offline', '--release', '--manifest-path', os.path.join(BIN_DIR, 'Cargo.toml')],
+    crate = BIN_DIR
+    tgt = os.path.join(CACHE, 'replay-target')
+    if repo != '/repo':
+        import hashlib, shutil
+        tag = hashlib.sha1(repo.encode()).hexdigest()[:8]
+        crate = os.path.join(CACHE, f'replay-crate-{tag}')
+        shutil.rmtree(crate, ignore_errors=True)
+        shutil.copytree(BIN_DIR, crate, ignore=shutil.ignore_patterns('target'))
+        t = open(os.path.join(crate, 'Cargo.toml')).read().replace('path = "/repo"', f'path = "{repo}"')
+        open(os.path.join(crate, 'Cargo.toml'), 'w').write(t)
+        tgt = os.path.join(CACHE, f'replay-target-{tag}')
+    env.update({'CARGO_NET_OFFLINE': 'true', 'CARGO_TARGET_DIR': tgt})
+    p = subprocess.run(['cargo', 'build', '--offline', '--release', '--manifest-path', os.path.join(crate, 'Cargo.toml')],
                        env=env, capture_output=True, text=True)
     if p.returncode != 0:
         raise RuntimeError('replayer does not build against the current tree:\n' + p.stderr[-2000:])
-    return os.path.join(CACHE, 'replay-target', 'release', 'hv-replay')
+    return os.path.join(tgt, 'release', 'hv-replay')
 
 
 def observable(tr):
